@@ -123,7 +123,8 @@ def run_case(case):
     tree = P.from_json(case["tree"])
     if case.get("state_id") is not None:
         reset_state_counter(case["state_id"])
-    r = call_sut(P.to_expr, tree)
+    atoms, share = case.get("mode") or ("plain", False)
+    r = call_sut(P.to_expr, tree, atoms, share)
     if r[0] == "exc":
         return (f"build:{r[1]}", _msg(tree, case["seq"], r[2]))
     return check_pair(tree, r[1], list(case["seq"]), _entry_points())
@@ -133,9 +134,9 @@ def shrink_candidates(case):
     tree = P.from_json(case["tree"])
     seq = case["seq"]
     for i in range(len(seq)):
-        yield {"tree": case["tree"], "seq": seq[:i] + seq[i + 1 :]}
+        yield dict(case, seq=seq[:i] + seq[i + 1 :])
     for sub in P.subtrees(tree):
-        yield {"tree": P.to_json(sub), "seq": seq}
+        yield dict(case, tree=P.to_json(sub))
 
 
 # --------------------------------------------------------------------------- shards
@@ -169,12 +170,15 @@ def enum_trees(col, sizes, part, nparts, max_len, selftest=False):
             if idx % nparts != part:
                 continue
             nt = P.nontrivial(tree)
-            reset_state_counter(1 if idx % 2 else 1 + idx % 97)
-            r = call_sut(P.to_expr, tree)
+            sid = 1 if idx % 2 else 1 + idx % 97
+            reset_state_counter(sid)
+            mode = P.MODES[(idx // nparts) % len(P.MODES)]  # how atoms are supplied / whether sub-patterns are shared objects
+            r = call_sut(P.to_expr, tree, *mode)
             if r[0] == "exc":
-                col.fail({"tree": P.to_json(tree), "seq": ""}, f"build:{r[1]}", r[2])
+                col.fail({"tree": P.to_json(tree), "seq": "", "mode": list(mode), "state_id": sid}, f"build:{r[1]}", r[2])
                 col.bulk(1, 1 if nt else 0)
                 continue
+            col.label(f"atoms:{mode[0]}" + ("+shared-operators" if mode[1] and P.has_repeated_subpattern(tree) else ""))
             expr = r[1]
             failed = False
             try:
@@ -182,7 +186,7 @@ def enum_trees(col, sizes, part, nparts, max_len, selftest=False):
                     for s in short:
                         res = check_pair(tree, expr, s, m)
                         if res:
-                            col.fail({"tree": P.to_json(tree), "seq": "".join(s)}, res[0], res[1])
+                            col.fail({"tree": P.to_json(tree), "seq": "".join(s), "mode": list(mode), "state_id": sid}, res[0], res[1])
                             failed = True
                             break
                     if not failed and long:
@@ -190,7 +194,7 @@ def enum_trees(col, sizes, part, nparts, max_len, selftest=False):
                             for s in long:
                                 res = check_pair(tree, expr, s, m)
                                 if res:
-                                    col.fail({"tree": P.to_json(tree), "seq": "".join(s)}, res[0], res[1])
+                                    col.fail({"tree": P.to_json(tree), "seq": "".join(s), "mode": list(mode), "state_id": sid}, res[0], res[1])
                                     break
             except CaseTimeout:
                 col.fail({"tree": P.to_json(tree), "seq": ""}, "hang", f"pattern {P.show(tree)}: building / matching did not finish within 120 s")
@@ -236,16 +240,17 @@ def enum_spines(col, ks, stride, offset, max_len):
     for tree in spine_trees(ks, stride, offset):
         n_trees += 1
         reset_state_counter(1)
-        r = call_sut(P.to_expr, tree)
+        mode = P.MODES[n_trees % len(P.MODES)]
+        r = call_sut(P.to_expr, tree, *mode)
         if r[0] == "exc":
-            col.fail({"tree": P.to_json(tree), "seq": "", "state_id": 1}, f"build:{r[1]}", r[2])
+            col.fail({"tree": P.to_json(tree), "seq": "", "state_id": 1, "mode": list(mode)}, f"build:{r[1]}", r[2])
             continue
         try:
             with watchdog(120), BuildMemo():
                 for s in seqs:
                     res = check_pair(tree, r[1], s, m)
                     if res:
-                        col.fail({"tree": P.to_json(tree), "seq": "".join(s), "state_id": 1}, res[0], res[1])
+                        col.fail({"tree": P.to_json(tree), "seq": "".join(s), "state_id": 1, "mode": list(mode)}, res[0], res[1])
                         break
         except CaseTimeout:
             col.fail({"tree": P.to_json(tree), "seq": "", "state_id": 1}, "hang", f"pattern {P.show(tree)}: no result within 120 s")
@@ -260,20 +265,25 @@ def enum_family(col, part, nparts, max_len):
     """match / nfa_match / starts_with over the nullable-repetition family (patterns of up to 7 nodes)."""
     m = _entry_points()
     seqs = list(P.sequences(P.ATOMS, max_len))
-    for i, tree in enumerate(P.nullable_repetition_family()):
+    fam = [(t, None) for t in P.nullable_repetition_family()] + [(t, (a, True)) for t in P.shared_family() for a in ("plain", "fresh", "one")]
+    for i, (tree, mode) in enumerate(fam):
         if i % nparts != part:
             continue
         reset_state_counter(1)
-        r = call_sut(P.to_expr, tree)
+        if mode is None:
+            mode = P.MODES[(i // nparts) % len(P.MODES)]
+        else:
+            col.label("shared-operator-family")
+        r = call_sut(P.to_expr, tree, *mode)
         if r[0] == "exc":
-            col.fail({"tree": P.to_json(tree), "seq": ""}, f"build:{r[1]}", r[2])
+            col.fail({"tree": P.to_json(tree), "seq": "", "mode": list(mode)}, f"build:{r[1]}", r[2])
             continue
         try:
             with watchdog(120), BuildMemo():
                 for s in seqs:
                     res = check_pair(tree, r[1], s, m)
                     if res:
-                        col.fail({"tree": P.to_json(tree), "seq": "".join(s)}, res[0], res[1])
+                        col.fail({"tree": P.to_json(tree), "seq": "".join(s), "mode": list(mode), "state_id": 1}, res[0], res[1])
                         break
         except CaseTimeout:
             col.fail({"tree": P.to_json(tree), "seq": ""}, "hang", f"pattern {P.show(tree)}: no result within 120 s")
@@ -282,14 +292,15 @@ def enum_family(col, part, nparts, max_len):
 
 
 def gen_random(col, seed, n):
-    strat = st.tuples(P.tree_strategy(8), st.text(alphabet="abc", max_size=20), st.sampled_from([1, 1, 1, 2, 5, 10, 11, 99, 100, 1234]))
+    strat = st.tuples(P.tree_strategy(8), st.text(alphabet="abc", max_size=20), st.sampled_from([1, 1, 1, 2, 5, 10, 11, 99, 100, 1234]), st.sampled_from(P.MODES))
 
     def body(v):
-        tree, seq, sid = v
+        tree, seq, sid, mode = v
         labels = [f"rnd_size:{min(R.size(tree) // 4 * 4, 16)}"]
         if R.matches(tree, seq):
             labels.append("rnd_in_language")
-        col.eval({"tree": P.to_json(tree), "seq": seq, "state_id": sid}, nontrivial=P.nontrivial(tree), labels=labels + [f"state_counter:{'1' if sid == 1 else 'other'}"])
+        labels.append(f"rnd_atoms:{mode[0]}" + ("+shared" if mode[1] else ""))
+        col.eval({"tree": P.to_json(tree), "seq": seq, "state_id": sid, "mode": list(mode)}, nontrivial=P.nontrivial(tree), labels=labels + [f"state_counter:{'1' if sid == 1 else 'other'}"])
 
     run_given(body, strat, seed, n)
 
